@@ -4,6 +4,7 @@ import (
 	"fmt"
 	"math"
 	"math/rand"
+	"sort"
 
 	"github.com/unixpickle/model3d/model2d"
 	"github.com/unixpickle/model3d/model3d"
@@ -43,6 +44,10 @@ func checkShell(c *vlib.Case, api string, mesh *model3d.Mesh, euler int, params 
 		return false
 	}
 	c.Nontrivial(fmt.Sprint(api, params))
+	// The mesh belongs to the caller: edit its triangles in place (the idiom of flipping faces through
+	// Iterate pointers). If a generator handed out triangles it also keeps for later calls, every mesh
+	// generated afterwards in this process shows it.
+	mesh.Iterate(func(t *model3d.Triangle) { t[0], t[1] = t[1], t[0] })
 	return true
 }
 
@@ -406,6 +411,190 @@ func generators(r *vlib.Run) {
 			}
 		}
 		c.Nontrivial(fmt.Sprint("rectset", hist))
+	})
+
+	// box sets on a decimal grid whose coordinates are computed in different ways (k*0.1, k/10,
+	// repeated addition): planes that are "the same" differ by an ulp, so boxes overlap in, or are
+	// separated by, slivers one ulp thick. The set is exactly what the float boxes say it is.
+	r.Section("gen.rectset.decimal", r.N(60, 1500), vlib.SectionOpts{}, func(c *vlib.Case) {
+		rng := c.Rng
+		coord := func(k int) float64 {
+			switch rng.Intn(3) {
+			case 0:
+				return float64(k) * 0.1
+			case 1:
+				return float64(k) / 10
+			default:
+				x := 0.0
+				for i := 0; i < k; i++ {
+					x += 0.1
+				}
+				return x
+			}
+		}
+		type fbox struct {
+			lo, hi [3]float64
+			add    bool
+		}
+		var boxes []fbox
+		rs := toolbox3d.NewRectSet()
+		var hist []string
+		n := 2 + rng.Intn(5)
+		for i := 0; i < n; i++ {
+			var b fbox
+			for a := 0; a < 3; a++ {
+				l := rng.Intn(5)
+				h := l + 1 + rng.Intn(5-l)
+				b.lo[a], b.hi[a] = coord(l), coord(h)
+			}
+			b.add = i == 0 || rng.Intn(5) != 0
+			boxes = append(boxes, b)
+			rect := model3d.NewRect(model3d.NewCoord3DArray(b.lo), model3d.NewCoord3DArray(b.hi))
+			if b.add {
+				rs.Add(rect)
+			} else {
+				rs.Remove(rect)
+			}
+			hist = append(hist, fmt.Sprintf("add=%v %x-%x", b.add, b.lo, b.hi))
+		}
+		contains := func(p [3]float64) bool {
+			in := false
+			for _, b := range boxes {
+				cover := true
+				for a := 0; a < 3; a++ {
+					cover = cover && p[a] > b.lo[a] && p[a] < b.hi[a]
+				}
+				if cover {
+					in = b.add
+				}
+			}
+			return in
+		}
+		// ExactMesh (face cancellation only) is always run in-process. Mesh() adds the singularity
+		// repair, whose separation distance is derived from the smallest gap between planes: when two
+		// planes differ by rounding noise the unchanged library can split edges forever (it was
+		// observed to allocate 64 GB), so in that case Mesh() runs in a child process with an address
+		// space limit and a deadline.
+		exact := vlib.Tris(rs.ExactMesh())
+		noisy := false
+		for a := 0; a < 3; a++ {
+			var vs []float64
+			for _, b := range boxes {
+				vs = append(vs, b.lo[a], b.hi[a])
+			}
+			sort.Float64s(vs)
+			for i := 1; i < len(vs); i++ {
+				if d := vs[i] - vs[i-1]; d > 0 && d < 1e-9 {
+					noisy = true
+				}
+			}
+		}
+		var tris []vlib.Tri
+		if noisy {
+			c.Count("gen.rectset.decimal.mesh_in_child_process", 1)
+			var status string
+			tris, status = rectSetMeshInChild(boxesToText(len(boxes), func(i int) ([3]float64, [3]float64, bool) { return boxes[i].lo, boxes[i].hi, boxes[i].add }))
+			if status != "ok" {
+				c.Violation("toolbox3d.RectSet.Mesh/returns-when-planes-differ-by-rounding-noise", "Mesh() of a box set whose planes differ by an ulp: "+status, hist)
+				tris = nil
+			}
+		} else {
+			func() {
+				defer func() {
+					if e := recover(); e != nil {
+						c.Violation("toolbox3d.RectSet.Mesh/panic", fmt.Sprint("panic: ", e), hist)
+					}
+				}()
+				tris = vlib.Tris(rs.Mesh())
+			}()
+		}
+		c.Count("gen.RectSet.Mesh.decimal", 1)
+		// cell centres of the grid of all distinct coordinates (slivers thinner than 1e-9 are skipped)
+		var axes [3][]float64
+		for a := 0; a < 3; a++ {
+			seen := map[float64]bool{}
+			for _, b := range boxes {
+				seen[b.lo[a]], seen[b.hi[a]] = true, true
+			}
+			for v := range seen {
+				axes[a] = append(axes[a], v)
+			}
+			sort.Float64s(axes[a])
+			if len(axes[a]) > 1 && axes[a][1]-axes[a][0] < 1e-9 {
+				c.Count("gen.rectset.decimal.cases_with_ulp_apart_planes", 1)
+			}
+		}
+		any := false
+		var probes [][3]float64
+		for i := 0; i+1 < len(axes[0]); i++ {
+			for j := 0; j+1 < len(axes[1]); j++ {
+				for k := 0; k+1 < len(axes[2]); k++ {
+					if axes[0][i+1]-axes[0][i] < 1e-9 || axes[1][j+1]-axes[1][j] < 1e-9 || axes[2][k+1]-axes[2][k] < 1e-9 {
+						continue
+					}
+					p := [3]float64{(axes[0][i] + axes[0][i+1]) / 2, (axes[1][j] + axes[1][j+1]) / 2, (axes[2][k] + axes[2][k+1]) / 2}
+					probes = append(probes, p)
+					any = any || contains(p)
+				}
+			}
+		}
+		if !any {
+			return
+		}
+		// ExactMesh: every directed edge is matched by as many opposite ones (a closed oriented surface,
+		// possibly touching itself along edges), and it winds once around exactly the cells of the set
+		dir := map[[2]C3]int{}
+		for _, t := range exact {
+			for k := 0; k < 3; k++ {
+				dir[[2]C3{t[k], t[(k+1)%3]}]++
+			}
+		}
+		for e, n := range dir {
+			if dir[[2]C3{e[1], e[0]}] != n {
+				c.Violation("toolbox3d.RectSet.ExactMesh/closed-oriented", fmt.Sprintf("directed edge %v->%v used %d times, the opposite direction %d times", e[0], e[1], n, dir[[2]C3{e[1], e[0]}]), hist)
+				return
+			}
+		}
+		for _, p := range probes {
+			w, frac := vlib.WindingSolidAngle(exact, model3d.NewCoord3DArray(p))
+			want := 0
+			if contains(p) {
+				want = 1
+			}
+			if frac <= 0.01 && w != want {
+				c.Violation("toolbox3d.RectSet.ExactMesh/winding-vs-set", fmt.Sprintf("cell centre %v: winding %d want %d", p, w, want), hist)
+				return
+			}
+		}
+		c.Count("gen.RectSet.ExactMesh.decimal", 1)
+		if tris == nil {
+			return
+		}
+		topo := vlib.AnalyzeTris(tris)
+		if !topo.ClosedOrientedManifold() {
+			key := "toolbox3d.RectSet.Mesh/closed-oriented-manifold"
+			if noisy {
+				key = "toolbox3d.RectSet.Mesh/closed-oriented-manifold-when-planes-differ-by-rounding-noise"
+			}
+			c.Violation(key, fmt.Sprint(topo.Problems), hist)
+			return
+		}
+		for _, p := range probes {
+			w, frac := vlib.WindingSolidAngle(tris, model3d.NewCoord3DArray(p))
+			if frac > 0.01 {
+				c.Undecided("rectset-winding-fractional")
+				continue
+			}
+			want := 0
+			if contains(p) {
+				want = 1
+			}
+			if w != want {
+				c.Violation("toolbox3d.RectSet.Mesh/winding-vs-set", fmt.Sprintf("cell centre %v: winding %d want %d", p, w, want), hist)
+				return
+			}
+		}
+		c.Nontrivial(fmt.Sprint("rectset.decimal", hist))
 	})
 
 	// height maps: zeros, plateaus, single cells
